@@ -139,7 +139,8 @@ def crash_enumeration(tier, seed):
 
 def staking(tier, seed):
     rnd = random.Random("%d/staking" % seed)
-    return gens_staking.targeted() + gens_staking.staking(rnd, {"quick": 60, "thorough": 1500}[tier]) + regress("staking")
+    return (gens_staking.targeted() + gens_staking.staking(rnd, {"quick": 60, "thorough": 1500}[tier])
+            + gens_staking.crowd(rnd, {"quick": 6, "thorough": 60}[tier]) + regress("staking"))
 
 
 # no TLC model of the staking / pool actions exists yet: these families are decided on traces of the real node only
